@@ -11,7 +11,7 @@ use vbase::{ensure, fail};
 use crate::family::{self, Fam, FamVisitor};
 use crate::model_ser::{to_model, SV};
 
-pub const RULE: &str = "cases are (target type, text) pairs: for each of the 60 types of the family (plus a struct of borrowed &str / Cow / &[u8] fields) a value is generated, printed by serde_json (compact or pretty) and then kept, re-laid-out, or damaged by type-directed near-misses: a scalar replaced by boundary integers of every width, 1.0/1e2/-0/20..40-digit integers, another JSON kind, strings with escapes, lone surrogates; keys renamed, decorated numerically (' 1', '01', '+1', '1.0', '1e0', '', '-'), duplicated, extra members carrying nested (possibly malformed) documents; generic byte mutations, truncation, trailing bytes. serde_json::from_slice/from_str::<T> and sonic_rs::from_slice/from_str::<T> must agree on Ok/Err and on the value (floats by bits). Documented differences are excluded: f32 fields may differ by the double rounding through f64 (one ulp) and literals beyond f32::MAX. Non-trivial = a damaged or re-laid-out text, or a value with nesting; distinct by (type, text).";
+pub const RULE: &str = "cases are (target type, text) pairs: for each of the 71 types of the family (incl. structs/enums whose field and variant names need escaping, newtype variants with nullable payloads, Display-driven strings written in pieces) (plus a struct of borrowed &str / Cow / &[u8] fields) a value is generated, printed by serde_json (compact or pretty) and then kept, re-laid-out, or damaged by type-directed near-misses: a scalar replaced by boundary integers of every width, 1.0/1e2/-0/20..40-digit integers, another JSON kind, strings with escapes, lone surrogates; keys renamed, decorated numerically (' 1', '01', '+1', '1.0', '1e0', '', '-'), duplicated, extra members carrying nested (possibly malformed) documents, or values built to stress the validating skipper (a string with one escape at a chosen position 0..=130, hundreds of tiny containers, bracket bursts); generic byte mutations, truncation, trailing bytes. serde_json::from_slice/from_str::<T> and sonic_rs::from_slice/from_str::<T> must agree on Ok/Err and on the value (floats by bits). Documented differences are excluded: f32 fields may differ by the double rounding through f64 (one ulp) and literals beyond f32::MAX. Non-trivial = a damaged or re-laid-out text, or a value with nesting; distinct by (type, text).";
 pub const ASSUMPTIONS: &[&str] = &["serde_json 1.0 with float_roundtrip is the reference the property names", "nesting of generated texts stays below both libraries' limits", "exact f32 expectations are checked in C07, here f32 fields are compared with one-ulp tolerance"];
 
 /// compare two models; f32 leaves with one-ulp tolerance
@@ -188,7 +188,7 @@ pub fn damage(src: &mut Src, text: &[u8]) -> (Vec<u8>, &'static str) {
     let (mut scalars, mut keys, mut objs) = (Vec::new(), Vec::new(), Vec::new());
     collect(&root, &mut scalars, &mut keys, &mut objs);
     let mut out = text.to_vec();
-    let k = src.below(13);
+    let k = src.below(15);
     match k {
         0 => (out, "as-printed"),
         1 | 2 if !scalars.is_empty() => {
@@ -317,6 +317,43 @@ pub fn damage(src: &mut Src, text: &[u8]) -> (Vec<u8>, &'static str) {
             lit.push(b'"');
             out.splice(sp.start..sp.end, lit);
             (out, "bytes-string")
+        }
+        12 | 13 if !objs.is_empty() => {
+            // an unknown member whose value stresses the validating skipper: a string with one feature
+            // at a chosen position, hundreds of tiny containers, bracket bursts, nasty siblings
+            let sp = objs[src.below(objs.len())];
+            let mut val: Vec<u8> = Vec::new();
+            match src.below(6) {
+                0 | 1 | 2 => {
+                    let pos = if src.chance(128) { *src.pick(&[29usize, 30, 31, 32, 33, 61, 62, 63, 64, 65, 93, 94, 95, 96, 97, 127]) } else { src.below(131) };
+                    let feat: &[u8] = *src.pick(&[&b"\\\""[..], b"\\\\", b"\\n", b"\\u00e9", "é".as_bytes(), b"\\\\\\\"", b"\\/", b"\\ud83d\\ude00"]);
+                    let tail = *src.pick(&[0usize, 1, 5, 30, 31, 32, 33, 40, 64, 70]);
+                    val.push(b'"');
+                    val.resize(1 + pos, b'a');
+                    val.extend_from_slice(feat);
+                    val.resize(val.len() + tail, b'b');
+                    val.push(b'"');
+                }
+                3 => val = gens::gen_many_small(src),
+                4 => val = crate::lazyhelp::gen_bracket_stress(src),
+                _ => val = crate::lazyhelp::gen_skip_stress(src, &gens::DocParams { align: 0, ..gens::DocParams::default() }),
+            }
+            let key = *src.pick(&["\"zzskip\"", "\"extra\"", "\"tags\"", "\"\""]);
+            let empty = refjson::skip_ws(&out, sp.start + 1) == sp.end - 1;
+            let mut ins: Vec<u8> = Vec::new();
+            let at_start = src.bool();
+            if !at_start && !empty {
+                ins.push(b',');
+            }
+            ins.extend_from_slice(key.as_bytes());
+            ins.push(b':');
+            ins.extend_from_slice(&val);
+            if at_start && !empty {
+                ins.push(b',');
+            }
+            let at = if at_start { sp.start + 1 } else { sp.end - 1 };
+            out.splice(at..at, ins);
+            (out, "skipped-member")
         }
         10 => {
             let t = *src.pick(&[" ", "\n", " x", ",", "]", "}", " 1", "null", "\u{0}", "//c"]);
